@@ -1,6 +1,9 @@
 import TempestVerif.Drv.Util
 import TempestVerif.Model.Modes
 import TempestVerif.Model.Cadence
+import TempestVerif.Model.CadenceX
+import TempestVerif.Model.TrainStep
+import TempestVerif.Model.ModeGate
 /- line-protocol handlers of property C14
 
    modes.from labels=<nats> [tapes=<nats>;<nats>;…]
@@ -21,6 +24,21 @@ import TempestVerif.Model.Cadence
          verdict ok | predictBeforeFit.   sched: 1 = an iteration with β = 0, 0 = β > 0; resume = index of the schedule
          entry BEFORE which a fresh Trainer/Resampler/clusterer is constructed.  old=1: the model without the
          `not self._clusterer_fitted` disjunct.
+   c14x.trace ce=<k> steps=<tok,tok,…> iter0=<n> [clustering=0|1]      (second pass: Model.CadenceX)
+       tokens: w = complete iteration at β = 0, a = complete annealing iteration, R = fresh Sampler restored from the current
+       state, R<k> = fresh Sampler restored from a checkpoint with iter = k, L<k> = the state of the SAME core replaced
+       (iter = k), ce / ct / cl = an annealing iteration that raised early / inside Trainer.run after the clusterer calls /
+       in Mutator.run
+       → `<events> <verdict> gen=<g|-> iter=<n> coherent=<0|1>`   events: N, F<g>, P<g> (P- = predict on an unfitted object)
+   c14i.iter d=<dim> hist=<n·d rationals> w=<n rationals> keep=<ids> wt=<rationals> res=<ids> iter=<n> ce=<k> flag=<0|1>
+             prevgen=<g|-> prevk=<k> prevu=<ids> kfit=<k>                      (second pass: Model.TrainStep.annealIter)
+       one annealing iteration on tagging components: particles are history rows (id = position), `trim` keeps the rows `keep`
+       with weights `wt` (observed from the real trim_weights), a fit of generation g with k clusters made on the ids `fitU` labels
+       id p with (5·p + g) % max(1, k−1) if p ∈ fitU, else (p + g) % k, `from_particles` builds one mode per distinct label with stub mean ((c+1)/8,…), distances are squared
+       → `fit=<0|1> gen=<g> fitu=<ids> fitw=<rationals> labels=<nats> K=<n> stored=<nats> modes=<ids|ids|…> raw=<nats>
+          index=<nats> relabel=<nats>`   or `raised`
+   c14g.gate d=<dim> m=<d·d floats, row-major>     → `built` | `raised`   (Model.ModeGate.pdGate at Float)
+   c14w.minpts cap=<n|none> d=<dim>                → `min_points` the core hands to the clusterer (`none` | n)
 -/
 namespace Drv.C14
 open Drv Model.Modes Model.Cadence
@@ -105,6 +123,114 @@ def cadTrace (args : List (String × String)) : String :=
     s!"{String.join (s.trace.map showEvent)} {v} fitted={showBool s.clFitted} iter={s.iter}"
   | _, _, _, _ => "bad-op"
 
+/-! ### second pass -/
+
+def parseStepX? (t : String) : Option Model.CadenceX.StepX :=
+  if t == "w" then some (.iter true) else if t == "a" then some (.iter false)
+  else if t == "R" then some (.fresh none)
+  else if t == "ce" then some .crashEarly else if t == "ct" then some .crashTrained else if t == "cl" then some .crashLate
+  else if t.startsWith "R" then ((t.drop 1).toNat?).map fun k => .fresh (some k)
+  else if t.startsWith "L" then ((t.drop 1).toNat?).map .load
+  else none
+
+def showEvX : Model.CadenceX.Ev → String
+  | .fresh => "N"
+  | .fit g => s!"F{g}"
+  | .predict (some g) => s!"P{g}"
+  | .predict none => "P-"
+
+def cadTraceX (args : List (String × String)) : String :=
+  match (getArg args "ce").bind String.toNat?, getArg args "steps", (getArg args "iter0").bind String.toNat? with
+  | some ce, some stepsS, some iter0 =>
+    if ce = 0 then "bad-op" else
+    match (if stepsS == "-" then some [] else (stepsS.splitOn ",").mapM parseStepX?) with
+    | none => "bad-op"
+    | some steps =>
+      let clustering := (getArg args "clustering") != some "0"
+      let s := Model.CadenceX.run { clusterEvery := ce, clustering := clustering } iter0 steps
+      let v := match s.verdict with | .ok => "ok" | .predictBeforeFit => "predictBeforeFit"
+      let g := match s.gen with | some g => toString g | none => "-"
+      s!"{" ".intercalate (s.trace.map showEvX)} {v} gen={g} iter={s.iter} coherent={showBool (Model.CadenceX.coherentTrace s.trace)}"
+  | _, _, _ => "bad-op"
+
+/-- a tagged particle: its position in the flat history and its row of `u` -/
+structure TP where
+  id : Nat
+  pos : List Rat
+
+/-- a tagging fit: generation and number of clusters -/
+structure TF where
+  gen : Nat
+  k : Nat
+  fitU : List Nat
+  fitW : List Rat
+
+/-- the tagging mode object: labels present, members (ids of the training pool) per mode, stub means -/
+structure TO where
+  stored : List Nat
+  members : List (List Nat)
+  means : List (List Rat)
+
+def tagLabel (f : TF) (p : TP) : Nat :=
+  if f.k = 0 then 0 else if f.fitU.contains p.id then (5 * p.id + f.gen) % (max 1 (f.k - 1)) else (p.id + f.gen) % f.k
+
+def rowsOfFlat (d n : Nat) (flat : Array Rat) : Option (List (List Rat)) :=
+  if flat.size != n * d then none else
+  (List.range n).mapM fun i => (List.range d).mapM fun a => flat[i * d + a]?
+
+def iterX (args : List (String × String)) : String :=
+  let nat := fun k => (getArg args k).bind String.toNat?
+  let rats := fun k => (getArg args k).bind (parseList? parseRat?)
+  let nats := fun k => (getArg args k).bind parseNatList?
+  match nat "d", rats "hist", rats "w", nats "keep", rats "wt", nats "res", nat "iter", nat "ce", nat "kfit", nat "prevk" with
+  | some d, some hist, some w, some keep, some wt, some res, some iter, some ce, some kfit, some prevk =>
+    if ce = 0 || d = 0 then "bad-op" else
+    match rowsOfFlat d w.length hist.toArray with
+    | none => "bad-op"
+    | some rows =>
+      let ps : List TP := rows.zipIdx.map fun (r, i) => ⟨i, r⟩
+      let flag := (getArg args "flag") == some "1"
+      let prevGen := (getArg args "prevgen").bind String.toNat?
+      let prevU := ((getArg args "prevu").bind parseNatList?).getD []
+      let prev : Option TF := prevGen.map fun g => ⟨g, prevk, prevU, []⟩
+      let newGen := (match prevGen with | some g => g | none => 0) + 1
+      let mustFit := (iter % ce == 0 || iter == 0) || !flag
+      let pt : Model.TrainStep.Parts TP Rat TF TO Rat :=
+        { trim := fun h _ => (Model.Records.gather? h keep).map fun u => (u, wt)
+          cfit := fun u wt => some ⟨newGen, kfit, u.map (·.id), wt⟩
+          cpredict := fun f X => some (X.map (tagLabel f))
+          build := fun u _ labels =>
+            let ms := fromParticles labels
+            if ms.isEmpty then none else
+            some ⟨labelsOf labels, ms.map (fun m => m.filterMap fun j => (u[j]?).map (·.id)),
+                  (List.range ms.length).map fun c => List.replicate d (((c : Nat) + 1 : Rat) / 8)⟩
+          stored := fun o => o.stored
+          dist := fun o p => Model.TrainStep.sqDistRow o.means p.pos }
+      match Model.TrainStep.annealIter pt prev mustFit ps w res with
+      | none => "raised"
+      | some o =>
+        let fu := if o.didFit then showList toString o.clf.fitU else "-"
+        let fw := if o.didFit then showList showRat o.clf.fitW else "-"
+        s!"fit={showBool o.didFit} gen={o.clf.gen} fitu={fu} fitw={fw} labels={showList toString o.trainLabels} K={o.obj.stored.length} stored={showList toString o.obj.stored} modes={showModes o.obj.members} raw={showList toString (o.active.map (·.raw))} index={showList toString (o.active.map (·.index))} relabel={showList toString (o.active.map (·.label))}"
+  | _, _, _, _, _, _, _, _, _, _ => "bad-op"
+
+def gateF (args : List (String × String)) : String :=
+  match (getArg args "d").bind String.toNat?, (getArg args "m").bind (parseList? parseFloat?) with
+  | some d, some flat =>
+    if flat.length != d * d then "bad-op" else
+    let M : List (List Float) := (List.range d).map fun i => (List.range d).map fun j => flat.getD (i * d + j) 0.0
+    if Model.ModeGate.pdGate M then "built" else "raised"
+  | _, _ => "bad-op"
+
+def wireMinPts (args : List (String × String)) : String :=
+  match getArg args "cap", (getArg args "d").bind String.toNat? with
+  | some c, some d =>
+    let cap? : Option (Option Nat) := if c == "none" then some none else c.toNat?.map some
+    match cap? with
+    | some cap => (match Model.TrainStep.wiredMinPoints cap d with | none => "none" | some m => toString m)
+    | none => "bad-op"
+  | _, _ => "bad-op"
+
 def handle (cmd : String) (args : List (String × String)) : Option String :=
   match cmd with
   | "modes.from" => some (modesFrom args)
@@ -112,6 +238,10 @@ def handle (cmd : String) (args : List (String × String)) : Option String :=
   | "modes.dof" => some (modesDof args)
   | "wire.maxit" => some (wireMaxit args)
   | "cad.trace" => some (cadTrace args)
+  | "c14x.trace" => some (cadTraceX args)
+  | "c14i.iter" => some (iterX args)
+  | "c14g.gate" => some (gateF args)
+  | "c14w.minpts" => some (wireMinPts args)
   | _ => none
 
 end Drv.C14
